@@ -54,11 +54,21 @@ TAngleAxes == LET r == Events[l] IN
   /\ IsEvent("AngleAxes") /\ r.n > 0
   /\ Judge(<< <<r.bad = 0, "angle_axes_not_exact">> >>, r.kernel \o ":axes", r.num)
   /\ UNCHANGED <<paths, kernels>>
+(* a direction constructed without an argument, or by Zero(), is exactly the zero vector (every component +0) and reports length zero; *)
+(* the Magnitude() and MagnitudeSquared() members of a direction built from a non-zero vector report one within BudgetLen ulps (twice for the square) *)
+TDirZero == LET r == Events[l] IN
+  /\ IsEvent("DirZero") /\ r.num \in {"f", "d", "l"}
+  /\ Judge(<< <<r.default3 = 1 /\ r.zero3 = 1 /\ r.default2 = 1 /\ r.zero2 = 1 /\ r.mag3 = 1 /\ r.mag2 = 1, "direction_of_zero_not_zero">> >>, "default constructor / Zero()", r.num)
+  /\ UNCHANGED <<paths, kernels>>
+TDirMagnitude == LET r == Events[l] IN
+  /\ IsEvent("DirMagnitude") /\ r.n > 0
+  /\ Judge(<< <<r.ulps3 <= 2 * BudgetLen /\ r.ulps2 <= 2 * BudgetLen, "direction_not_unit">> >>, "Magnitude() / MagnitudeSquared()", r.num)
+  /\ UNCHANGED <<paths, kernels>>
 TFinish == /\ l = Len(Events) + 1 /\ l' = l + 1
            /\ JsonSerialize(IOEnv.OUT, [bad |-> bad, paths |-> Cardinality(paths), kernel_classes |-> Cardinality(kernels),
                  kernels_missing_a_class |-> Cardinality({k \in {<<x[1], x[2]>> : x \in kernels} : \E gm \in Geoms : <<k[1], k[2], gm>> \notin kernels})])
            /\ UNCHANGED <<bad, paths, kernels>>
-Next == TDirPath \/ TDirCross \/ TDirCast \/ TVecQuantity \/ TAngleClass \/ TAngleAxes \/ TFinish
+Next == TDirPath \/ TDirCross \/ TDirCast \/ TVecQuantity \/ TAngleClass \/ TAngleAxes \/ TDirZero \/ TDirMagnitude \/ TFinish
 Spec == Init /\ [][Next]_vars
 Accepted == TLCGet("stats").diameter - 2 = Len(Events)
 =============================================================================
